@@ -273,6 +273,20 @@ func gen(tier string) []proto.Item {
 			items = append(items, proto.Item{Scn: s, Class: v + "/base-" + b.name + "/all-default"})
 		}
 	}
+	// TCP SYN: the probe's sequence number is 2^32-1, so the destination's SYN-ACK / RST-ACK acknowledges 0: recognised
+	// like any other answer (default mode: one number for the whole run; Paris mode: every probe draws it)
+	for _, v := range []string{"syn", "synr", "synparis"} {
+		for _, form := range []string{"synack", "rstack"} {
+			s := base(v, rng{1, 4}, 3)
+			s.Rand = []uint32{0xffffffff, 0x22222222, 0x33333333, 0x44444444, 0x55555555, 0x66666666}
+			if v == "synparis" {
+				// (every probe draws its own number: the third one, the first to reach the destination, draws 2^32-1)
+				s.Rand = []uint32{0x11111111, 0x22222222, 0xffffffff, 0x44444444, 0x55555555, 0x66666666}
+			}
+			s.Hops = map[int]proto.HopSpec{3: {Form: form}, 4: {Form: form}}
+			items = append(items, proto.Item{Scn: s, Class: fmt.Sprintf("%s/r1-4/sequence-number-all-ones/%s", v, form)})
+		}
+	}
 	items = append(items, c05.ForwardReorder(tier, 200, 11)...)
 	return items
 }
